@@ -14,7 +14,7 @@ from . import common as C
 from . import digest as DG
 from . import worlds as WD
 
-OPS = ["runA", "runAprog", "runB", "runBprog", "copyA", "pickleA", "saveloadA", "freshA", "runAinit", "buildG"]
+OPS = ["runA", "runAprog", "runB", "runBprog", "copyA", "pickleA", "saveloadA", "freshA", "runAinit", "buildG", "runAedit"]
 
 
 def gen_project(at):
@@ -93,6 +93,18 @@ class Bench:
             ins = at.ProgramInstructions(start_year=2001.0, alloc=pg)
             res = "%s/%s" % (DG.dig(pg), DG.result_digest(G.run_sim(G.parsets[0], pg, ins, store_results=False)))
             return dict(op=op, realop=op, key="", before="", after="", result=res, pid=os.getpid())
+        if op == "runAedit":
+            if getattr(self, "fedit", None) is None:
+                import sciris as sc
+
+                self.fedit = sc.dcp(P.framework)  # (same uid as the original)
+                tp = [n for n in self.fedit.pars.index if self.fedit.transitions.get(n) and str(self.fedit.pars.at[n, "format"]).lower() in ("probability", "rate")][0]
+                self.fedit.pars.at[tp, "maximum value"] = 1e-3
+            objs = [P.parsets[0], self.fedit, P.data, P.settings]
+            before = "|".join(DG.dig(o) for o in objs)
+            res = DG.result_digest(at.run_model(P.settings, self.fedit, P.parsets[0]))
+            after = "|".join(DG.dig(o) for o in objs)
+            return dict(op=op, realop=op, key=before, before=before, after=after, result=res, pid=os.getpid())
         if op == "runAinit":
             if self.psinit is None:
                 import sciris as sc
@@ -142,10 +154,10 @@ class Bench:
         return dict(op=canon, realop=op, key=before, before=before, after=after, result=res, pid=os.getpid())
 
 
-def fresh(names, hashseed):
-    """Run project A in a fresh interpreter with the given PYTHONHASHSEED; returns (key digest, result digest)."""
+def fresh(names, hashseed, op="runA"):
+    """Run project A (operation op) in a fresh interpreter with the given PYTHONHASHSEED; returns (key digest, result digest)."""
     env = dict(os.environ, PYTHONHASHSEED=str(hashseed))
-    p = subprocess.run([sys.executable, "-m", "harness.props_c08", json.dumps(names)], cwd=C.VERIF, env=env, stdout=subprocess.PIPE, stderr=subprocess.STDOUT, text=True, timeout=600)
+    p = subprocess.run([sys.executable, "-m", "harness.props_c08", json.dumps(names), op], cwd=C.VERIF, env=env, stdout=subprocess.PIPE, stderr=subprocess.STDOUT, text=True, timeout=600)
     lines = [l for l in p.stdout.splitlines() if l.startswith("FRESH ")]
     if not lines:
         raise C.MachineryError("fresh-process run failed:\n" + p.stdout[-1500:])
@@ -178,6 +190,10 @@ def run(prop, tier):
             records.append(dict(id=rid, hist=-1, op="runA#%d" % pi, key=d["key"], before=d["key"], after=d["after"], result=d["result"], pid=d["pid"]))
             index[rid] = dict(history=["freshA"], step=0, realop="freshA PYTHONHASHSEED=%d" % hsd, projects=names)
             rid += 1
+        d = fresh(names, 0, "runAedit")  # the reference for the edited framework comes from a process that has never seen the original
+        records.append(dict(id=rid, hist=-1, op="runAedit#%d" % pi, key=d["key"], before=d["key"], after=d["after"], result=d["result"], pid=d["pid"]))
+        index[rid] = dict(history=["freshAedit"], step=0, realop="freshAedit", projects=names)
+        rid += 1
         mine = sel if pi == 0 else sel[:: (1 if thorough else 4)]
         for hid, h in enumerate(mine):
             for k, op in enumerate(h):
@@ -207,5 +223,5 @@ if __name__ == "__main__":
     names = json.loads(sys.argv[1])
     at_ = C.quiet_atomica()
     b = Bench(at_, dict(A=names["A"]))
-    e = b.do("runA")
+    e = b.do(sys.argv[2] if len(sys.argv) > 2 else "runA")
     print("FRESH " + json.dumps(dict(key=e["key"], after=e["after"], result=e["result"], pid=e["pid"])))
